@@ -67,13 +67,15 @@ def run(chk, replay=None):
         work = chk.path("work")
         niter = 3
         nkills = 0
-        for kind in ("plain", "mpi", "mc", "vegas"):
+        # plain-tmpdir: the name of the temporary file is taken by a directory, so that it cannot be created (nothing is written then)
+        for kind in ("plain", "mpi", "mc", "vegas", "plain-tmpdir"):
             exe = exe_mpi if kind == "mpi" else exe_serial
+            xkind = kind.split("-")[0]
             ref = os.path.join(work, kind, "ref")
             w = os.path.join(work, kind, "w")
             os.makedirs(ref)
             os.makedirs(w)
-            vt.run([exe, kind, os.path.join(ref, "chk.txt"), str(niter), ref], timeout=300)
+            vt.run([exe, xkind, os.path.join(ref, "chk.txt"), str(niter), ref], timeout=300)
             refs = {k: open(os.path.join(ref, "ref_%d.txt" % k), "rb").read() for k in range(1, niter + 1)}
             final = open(os.path.join(ref, "chk.txt.final"), "rb").read()
             target = os.path.join(w, "chk.txt")
@@ -81,13 +83,15 @@ def run(chk, replay=None):
             def one(kill):
                 shutil.rmtree(w)
                 os.makedirs(w)
+                if kind.endswith("-tmpdir"):
+                    os.makedirs(target + ".tmp")
                 syslog = os.path.join(work, kind, "sys.ndjson")
                 if os.path.exists(syslog):
                     os.remove(syslog)
                 env = {"VT_SYSLOG": syslog, "VT_WATCH_DIR": w, "LD_PRELOAD": lib}
                 if kill:
                     env["VT_KILL_AT"] = kill
-                r = vt.run([exe, kind, target, str(niter), "-"], env=env, timeout=300, ok_codes=None)
+                r = vt.run([exe, xkind, target, str(niter), "-"], env=env, timeout=300, ok_codes=None)
                 evs = [{"e": "Reset", "kind": kind, "target": "chk.txt", "kill": kill or "", "rc": r.returncode}] + syslog_events(syslog)
                 evs = [e for e in evs if e.get("path", "") != "chk.txt.final"]
                 # the process dies with the call it is killed at: what other threads (ranks of the shim) still log between that line and
@@ -107,7 +111,7 @@ def run(chk, replay=None):
                 syslog2 = os.path.join(work, kind, "sys2.ndjson")
                 if os.path.exists(syslog2):
                     os.remove(syslog2)
-                vt.run([exe, kind, target, str(niter), "-"], env={"VT_SYSLOG": syslog2, "VT_WATCH_DIR": w, "LD_PRELOAD": lib}, timeout=300, ok_codes=None)
+                vt.run([exe, xkind, target, str(niter), "-"], env={"VT_SYSLOG": syslog2, "VT_WATCH_DIR": w, "LD_PRELOAD": lib}, timeout=300, ok_codes=None)
                 evs.append({"e": "Restart"})
                 evs += [e for e in syslog_events(syslog2) if e.get("path", "") != "chk.txt.final" and e["e"] != "Killed"]
                 fin = open(target + ".final", "rb").read() if os.path.exists(target + ".final") else b""
